@@ -1,0 +1,8 @@
+//! Verification hooks for the `/verif` correspondence harness.
+//!
+//! Everything in here only *exposes* crate-private items (re-exports and thin wrappers that call the
+//! production functions); it contains no logic of its own that the production build uses.
+pub mod alloc;
+pub mod sched;
+pub mod server;
+pub mod worker;
